@@ -23,15 +23,17 @@ import (
 )
 
 type scenario struct {
-	NL       int   `json:"nl"`
-	Listens  []int `json:"listens"`  // listener index of each Listen().Async() goroutine (distinct)
-	LCloses  []int `json:"lcloses"`  // listener index of each Listener.Close() goroutine
-	Connects int   `json:"connects"` // client Connect goroutines
-	Dials    []int `json:"dials"`    // listener index of each incoming connection
-	NoShut   bool  `json:"noshut"`   // Shutdown is never called (reachable states without it)
-	Fine     bool  `json:"fine"`
+	NL       int    `json:"nl"`
+	Listens  []int  `json:"listens"`           // listener index of each Listen().Async() goroutine (distinct)
+	LCloses  []int  `json:"lcloses"`           // listener index of each Listener.Close() goroutine
+	Connects int    `json:"connects"`          // client Connect goroutines
+	Dials    []int  `json:"dials"`             // listener index of each incoming connection
+	FailL    []int  `json:"faill,omitempty"`   // listeners for which the transport factory's FIRST Listen fails (address in use, ...)
+	Retries  []int  `json:"retries,omitempty"` // listener index of each goroutine that calls Async AGAIN on the Listener it got
+	NoShut   bool   `json:"noshut"`            // Shutdown is never called (reachable states without it)
+	Fine     bool   `json:"fine"`
 	Strat    string `json:"strat"`
-	Picks    []int `json:"picks,omitempty"`
+	Picks    []int  `json:"picks,omitempty"`
 }
 
 // ---- mock transport layer ----
@@ -41,6 +43,7 @@ func (a addr) Network() string { return "mock" }
 func (a addr) String() string  { return string(a) }
 
 var errClosed = errors.New("mock: use of closed connection")
+var errListen = errors.New("mock: listen failed (address already in use)")
 
 type mtransport struct {
 	s      *sched.Sched
@@ -51,16 +54,16 @@ func (t *mtransport) Read(b []byte) (int, error) {
 	t.s.Yield("t.read", func() bool { return t.closes > 0 })
 	return 0, errClosed
 }
-func (t *mtransport) Write(b []byte) (int, error)              { return len(b), nil }
+func (t *mtransport) Write(b []byte) (int, error)               { return len(b), nil }
 func (t *mtransport) Writev(b transport.Buffers) (int64, error) { return 0, nil }
-func (t *mtransport) Flush() error                             { return nil }
-func (t *mtransport) Close() error                             { t.closes++; return nil }
-func (t *mtransport) LocalAddr() net.Addr                      { return addr("local") }
-func (t *mtransport) RemoteAddr() net.Addr                     { return addr("remote") }
-func (t *mtransport) SetDeadline(time.Time) error              { return nil }
-func (t *mtransport) SetReadDeadline(time.Time) error          { return nil }
-func (t *mtransport) SetWriteDeadline(time.Time) error         { return nil }
-func (t *mtransport) RawTransport() interface{}                { return t }
+func (t *mtransport) Flush() error                              { return nil }
+func (t *mtransport) Close() error                              { t.closes++; return nil }
+func (t *mtransport) LocalAddr() net.Addr                       { return addr("local") }
+func (t *mtransport) RemoteAddr() net.Addr                      { return addr("remote") }
+func (t *mtransport) SetDeadline(time.Time) error               { return nil }
+func (t *mtransport) SetReadDeadline(time.Time) error           { return nil }
+func (t *mtransport) SetWriteDeadline(time.Time) error          { return nil }
+func (t *mtransport) RawTransport() interface{}                 { return t }
 
 type macceptor struct {
 	f       *mfactory
@@ -86,7 +89,12 @@ type mfactory struct {
 	acceptors  map[int]*macceptor
 	transports []*mtransport // in channel-creation order
 	dialed     map[int]int   // connections that arrived before the acceptor existed are refused (dropped)
+	failFirst  map[int]bool  // listeners whose first Listen fails
+	attempts   map[int]int
 }
+
+// willFail: whether the NEXT Listen for listener l fails (asked by the harness when the accept loop takes its decision)
+func (f *mfactory) willFail(l int) bool { return f.failFirst[l] && f.attempts[l] == 0 }
 
 func (f *mfactory) Schemes() transport.Schemes { return transport.Schemes{"mock"} }
 func (f *mfactory) Connect(o *transport.Options) (transport.Transport, error) {
@@ -96,8 +104,13 @@ func (f *mfactory) Connect(o *transport.Options) (transport.Transport, error) {
 }
 func (f *mfactory) Listen(o *transport.Options) (transport.Acceptor, error) {
 	// binding takes time: other goroutines may run while the accept loop is in here
-	f.s.Yield("f.listen", nil)
 	l, _ := strconv.Atoi(o.Address.Port())
+	fail := f.willFail(l)
+	f.attempts[l]++
+	f.s.Yield("f.listen", nil)
+	if fail {
+		return nil, errListen
+	}
 	a := &macceptor{f: f, l: l}
 	f.acceptors[l] = a
 	return a, nil
@@ -136,6 +149,7 @@ const (
 	kDial
 	kSync
 	kChan
+	kRetry
 )
 
 type tinfo struct {
@@ -164,12 +178,17 @@ func url(l int) string { return fmt.Sprintf("mock://h:%d", l) }
 func run(sc scenario, choose func(step int, en []*sched.Thread, last *sched.Thread) int) *result {
 	s := sched.New()
 	if !sc.Fine {
-		s.Skip = func(p string) bool { return strings.HasPrefix(p, "c.") || strings.HasPrefix(p, "w.") || strings.HasPrefix(p, "s.") }
+		s.Skip = func(p string) bool {
+			return strings.HasPrefix(p, "c.") || strings.HasPrefix(p, "w.") || strings.HasPrefix(p, "s.")
+		}
 	}
 	netty.SetVerifSched(s)
 	defer netty.SetVerifSched(nil)
 	r := &result{}
-	f := &mfactory{s: s, acceptors: map[int]*macceptor{}, dialed: map[int]int{}}
+	f := &mfactory{s: s, acceptors: map[int]*macceptor{}, dialed: map[int]int{}, failFirst: map[int]bool{}, attempts: map[int]int{}}
+	for _, l := range sc.FailL {
+		f.failFirst[l] = true
+	}
 	h := &chandler{active: map[int64]int{}, inactive: map[int64]int{}}
 	info := map[int]*tinfo{} // sched thread index -> info
 	nmodel := 0
@@ -183,7 +202,7 @@ func run(sc scenario, choose func(step int, en []*sched.Thread, last *sched.Thre
 		ti := &tinfo{model: nmodel}
 		nmodel++
 		switch ci.kind {
-		case kListen:
+		case kListen, kRetry:
 			ti.kind, ti.l = kSync, ci.l
 		default:
 			ti.kind, ti.c = kChan, ci.c
@@ -220,6 +239,22 @@ func run(sc scenario, choose func(step int, en []*sched.Thread, last *sched.Thre
 		fn()
 	}
 	listeners := map[int]netty.Listener{}
+	syncReturned := map[int]int{}
+	syncDone := func(err error) {
+		ti := info[s.Current().Index]
+		syncReturned[ti.l]++
+		switch {
+		case errors.Is(err, netty.ErrServerClosed):
+			ti.ret = "RetServerClosed"
+		case err != nil && strings.Contains(err.Error(), "duplicate"):
+			ti.ret = "RetDup"
+		case errors.Is(err, errListen):
+			ti.ret = "RetListenErr"
+		default:
+			ti.ret = "RetAcceptErr"
+		}
+		ti.late = cancelled
+	}
 	// thread 0: Shutdown
 	if !sc.NoShut {
 		t := s.Spawn("shutdown", func() { guard("Shutdown", bs.Shutdown); r.ShutDone = true })
@@ -234,18 +269,7 @@ func run(sc scenario, choose func(step int, en []*sched.Thread, last *sched.Thre
 				listeners[l] = ln
 				me := info[s.Current().Index]
 				_ = me
-				ln.Async(func(err error) {
-					ti := info[s.Current().Index]
-					switch {
-					case errors.Is(err, netty.ErrServerClosed):
-						ti.ret = "RetServerClosed"
-					case err != nil && strings.Contains(err.Error(), "duplicate"):
-						ti.ret = "RetDup"
-					default:
-						ti.ret = "RetAcceptErr"
-					}
-					ti.late = cancelled
-				})
+				ln.Async(syncDone)
 			})
 		})
 		info[t.Index] = &tinfo{kind: kListen, model: nmodel, l: l}
@@ -261,6 +285,18 @@ func run(sc scenario, choose func(step int, en []*sched.Thread, last *sched.Thre
 		info[t.Index] = &tinfo{kind: kLClose, model: nmodel, l: l}
 		nmodel++
 		mths = append(mths, fmt.Sprintf("BLClose %d false", l))
+	}
+	for _, l := range sc.Retries {
+		l := l
+		t := s.Spawn(fmt.Sprintf("retry%d", l), func() {
+			// not before the first Sync of this Listener has returned: a second Sync that overlaps the first would block
+			// on the listener's mutex outside every hook (the first holds it across the factory's Listen)
+			s.Yield("wait-listen", func() bool { return listeners[l] != nil && syncReturned[l] > 0 })
+			guard("Listener.Async (again)", func() { listeners[l].Async(syncDone) })
+		})
+		info[t.Index] = &tinfo{kind: kRetry, model: nmodel, l: l}
+		nmodel++
+		mths = append(mths, fmt.Sprintf("BRetry %d false", l))
 	}
 	for i := 0; i < sc.Connects; i++ {
 		t := s.Spawn(fmt.Sprintf("connect%d", i), func() {
@@ -329,9 +365,15 @@ func run(sc scenario, choose func(step int, en []*sched.Thread, last *sched.Thre
 			if strings.HasPrefix(t.Point, "l.close@") {
 				ev(false)
 			}
+		case kRetry:
+			if t.Point == "wait-listen" {
+				ev(false)
+			}
 		case kSync:
 			switch t.Point {
-			case "l.listen", "l.serve", "r.serve":
+			case "l.listen":
+				ev(f.willFail(ti.l)) // the environment's choice at this step: the factory's Listen fails
+			case "l.serve", "r.serve":
 				ev(false)
 			case "a.accept":
 				ev(!f.acceptors[ti.l].closed)
@@ -388,6 +430,8 @@ func run(sc scenario, choose func(step int, en []*sched.Thread, last *sched.Thre
 			d = fmt.Sprintf("BListen %d %s", ti.l, hx.Bool(t.Done()))
 		case kLClose:
 			d = fmt.Sprintf("BLClose %d %s", ti.l, hx.Bool(t.Done()))
+		case kRetry:
+			d = fmt.Sprintf("BRetry %d %s", ti.l, hx.Bool(t.Done()))
 		case kConnect:
 			switch {
 			case t.Done():
@@ -484,6 +528,9 @@ func (sc scenario) coq(id int, r *result) string {
 	for _, l := range sc.LCloses {
 		mths = append(mths, fmt.Sprintf("BLClose %d false", l))
 	}
+	for _, l := range sc.Retries {
+		mths = append(mths, fmt.Sprintf("BRetry %d false", l))
+	}
 	for i := 0; i < sc.Connects; i++ {
 		mths = append(mths, "BConnect CoServe")
 	}
@@ -530,7 +577,7 @@ func check(sc scenario, r *result, meta *hx.Meta) {
 		}
 	}
 	for _, l := range r.Summary["late"].([]string) {
-		if l != "RetServerClosed" {
+		if l == "RetAcceptErr" { // RetDup: a rejected second Sync; RetListenErr: the loop never started
 			v("not-server-closed", "an accept loop that ended after the context was cancelled returned "+l)
 		}
 	}
@@ -546,6 +593,15 @@ func genScenario(rng *hx.Rng, meta *hx.Meta) scenario {
 			}
 			if rng.Chance(25) {
 				sc.LCloses = append(sc.LCloses, l)
+			}
+			if rng.Chance(20) {
+				// the first Listen of the transport factory fails; the application retries on the same Listener
+				sc.FailL = append(sc.FailL, l)
+				sc.Retries = append(sc.Retries, l)
+				meta.Count("listen failures", "first attempt fails, retried")
+			} else if rng.Chance(8) {
+				sc.Retries = append(sc.Retries, l) // Async again after the accept loop has ended (closed / shut down): refused
+				meta.Count("listen failures", "Async again after the loop ended")
 			}
 		}
 	}
